@@ -266,7 +266,12 @@ func init() {
 		x.abandon("bytes.Buffer.Bytes on a buffer that does not hold a recorded archive")
 		return nil
 	}
-	externals["io.NopCloser"] = func(fr *frame, args []value) value { return args[0] }
+	externals["io.NopCloser"] = func(fr *frame, args []value) value {
+		itf, _ := args[0].(iface)
+		return iface{fr.i.pkgType("io", "nopCloser"), itf.v}
+	}
+	externals["(io.nopCloser).Close"] = func(fr *frame, args []value) value { return iface{} }
+	externals["(io.nopCloserWriterTo).Close"] = func(fr *frame, args []value) value { return iface{} }
 	externals["(*bytes.Reader).Close"] = func(fr *frame, args []value) value { return iface{} }
 	externals["io.ReadAll"] = func(fr *frame, args []value) value {
 		x := fr.i.x
